@@ -31,7 +31,7 @@ func init() {
 		register(p, streamPrinterModel)
 	}
 	register("C02", streamNI)
-	register("C04", streamFidelity, streamStars)
+	register("C04", streamFidelity, streamStars, streamPrinterPlain)
 	register("C05", streamEnvelopes)
 	register("C06", streamWrappers)
 	register("C08", streamCompose)
